@@ -43,8 +43,9 @@ def run(tier):
                 key = ":".join(c["site"]) + ":" + ":".join(c["types"])
                 v.finding(key, "accepted program crashes the interpreter (route %s, configuration %s): %s\n%s" % (c["route"], mode, det, src),
                           {"source": src, "mode": mode, "site": c["site"], "types": c["types"], "route": c["route"], "detail": det})
-    for module, env in other_profiles(tier):
-        r2 = le.generate(module, env=env, timeout=2400)
+    extra = [("GenBuiltin", {}, "lang/GenBuiltin.cfg"), ("GenOrder", {}, "lang/GenOrder.cfg"), ("GenTemplate", {}, "lang/GenTemplate.cfg")]
+    for module, env, cfg in [(m, e, "lang/MCGen.cfg") for m, e in other_profiles(tier)] + extra:
+        r2 = le.generate(module, env=env, cfg=cfg, timeout=2400, coverage=cfg.endswith("MCGen.cfg"))
         tally.add_tlc(module, r2)
         judged = le.replay(r2.records, modes=["nn", "fn", "fp"])
         tally.add(judged)
